@@ -4,6 +4,7 @@ package c14
 
 import (
 	"bytes"
+	"crypto"
 	"fmt"
 	"math/big"
 	"testing"
@@ -109,7 +110,11 @@ func propSign(t *rapid.T) {
 	stat.Case("sign", cl, true, []byte(fmt.Sprintf("%x|%x|%x", dPrime, aux, msg)), func() any {
 		return map[string]any{"d": dPrime.Text(16), "aux": stat.Hex(aux), "msg": stat.Hex(msg), "delivery": delivery}
 	})
-	sig, err := key.Sign(rd, msg, nil)
+	// the crypto.Signer options argument carries no meaning for BIP-340 (messages of any length are
+	// signed as they are): whatever a generic caller passes, the signature is the BIP-340 one
+	opts := gen.Sampled([]crypto.SignerOpts{nil, nil, crypto.SHA256, crypto.SHA512, crypto.SHA1, crypto.Hash(0),
+		&secec.ECDSAOptions{Hash: crypto.SHA384, Encoding: secec.EncodingCompact}}).Draw(t, "signer-opts")
+	sig, err := key.Sign(rd, msg, opts)
 	if err != nil {
 		t.Fatalf("Sign failed: %v", err)
 	}
